@@ -122,6 +122,8 @@ class Registry:
             if attr == "T":
                 return Arr(o.n, o.elem, o.at, f"T({o.key})", dict(o.meta, transposed=not o.meta.get("transposed", False)))
             if attr == "shape":
+                if o.meta.get("zero_d"):
+                    return Tup([])
                 return Tup([I(o.n)] + ([Z(z3.Int(f"dims<{o.key}>"), "int")] if o.elem == "row" else []))
             if attr == "ndim":
                 return I(2 if o.elem == "row" else 1)
@@ -811,6 +813,24 @@ def install_arrays(reg: Registry):
         return x
     reg.handlers["xp.copy"] = xp_copy
     reg.handlers["xp.clone"] = xp_copy
+
+    @H("xp.squeeze")
+    def xp_squeeze(i, a, k, n):
+        # removes axes of length one: a one-dimensional array with exactly one element becomes a 0-d array (a scalar in all but name)
+        x = a[0]
+        if isinstance(x, Arr) and x.elem != "row" and not k and len(a) == 1:
+            if i.path.branch(x.n == 1):
+                return Arr(z3.IntVal(1), x.elem, x.at, f"squeeze0d({x.key})", dict(x.meta, zero_d=True))
+            return x
+        raise Unsupported(f"xp.squeeze of {type(x).__name__} at line {getattr(n, 'lineno', '?')}")
+
+    @H("arr.item")
+    def arr_item(i, a, k, n):
+        x = a[0]
+        if isinstance(x, Arr) and x.elem in ("real", "int") and (x.meta.get("zero_d") or z3.is_true(z3.simplify(x.n == 1))):
+            e = x.at(z3.IntVal(0))
+            return R(e) if x.elem == "real" else I(e)
+        raise Unsupported(f".item() of {type(x).__name__} at line {getattr(n, 'lineno', '?')}")
 
     @H("xp.to_device")
     def xp_to_device(i, a, k, n):
